@@ -1,6 +1,7 @@
 package main
 
 import (
+	"bytes"
 	"encoding/json"
 	"fmt"
 	"go/ast"
@@ -216,6 +217,13 @@ type engineResult struct {
 	OutTree  string   `json:"out_tree"` // serialised re-parse of Out
 	OutImps  string   `json:"out_imports"`
 	InTree   string   `json:"in_tree"`
+	// the same patch and file through the public API (patch.Parse + File.Apply); Out/OutTree/OutImps
+	// are taken from it, the hook run supplies the per-change steps and is cross-checked (HookOut)
+	APIErr  string `json:"api_err"`
+	// where the metavariable table engine.compileMeta built differs from the declarations of the change
+	MetaDiff []string `json:"meta_diff"`
+	HookOut []byte `json:"hook_out"`
+	HookErr string `json:"hook_err"`
 }
 
 // side of a change: *pgo.File through reflection
@@ -326,20 +334,47 @@ func runEngineCase(c engineCase) (res engineResult) {
 		wp := &valWriter{in: in, dots: pids}
 		mnode, mpkg, mimps := patternSx(wm, fset, minus, mids[start], mids[end])
 		pnode, ppkg, pimps := patternSx(wp, fset, plus, pids[start], pids[end])
-		// metavariables
-		meta := vp.Prog.Changes[i].Meta
+		// metavariables: the table is read off the PARSED declarations of this change (parse.Meta), not
+		// off what engine.compileMeta made of them; the two are compared below
+		decl := map[string]string{}
+		if mv := ch.FieldByName("Meta"); mv.IsValid() && !mv.IsNil() {
+			vars := mv.Elem().FieldByName("Vars")
+			for vi := 0; vi < vars.Len(); vi++ {
+				vd := vars.Index(vi).Elem()
+				ty := vd.FieldByName("Type").Interface().(*ast.Ident)
+				k := ""
+				switch ty.Name {
+				case "identifier":
+					k = "ident"
+				case "expression":
+					k = "expr"
+				}
+				for _, nm := range vd.FieldByName("Names").Interface().([]*ast.Ident) {
+					if nm.Name != "_" && k != "" {
+						decl[nm.Name] = k
+					}
+				}
+			}
+		}
+		compiled := map[string]string{}
+		for n, t := range vp.Prog.Changes[i].Meta.Vars {
+			if int(t) == 2 {
+				compiled[n] = "ident"
+			} else {
+				compiled[n] = "expr"
+			}
+		}
+		if !reflect.DeepEqual(decl, compiled) {
+			res.MetaDiff = append(res.MetaDiff, fmt.Sprintf("change %d: declared %v, compiled %v", i, decl, compiled))
+		}
 		var names []string
-		for n := range meta.Vars {
+		for n := range decl {
 			names = append(names, n)
 		}
 		sort.Strings(names)
 		var mk strings.Builder
 		for _, n := range names {
-			k := "expr"
-			if int(meta.Vars[n]) == 2 {
-				k = "ident"
-			}
-			fmt.Fprintf(&mk, " (%d %s)", in.id(n), k)
+			fmt.Fprintf(&mk, " (%d %s)", in.id(n), decl[n])
 		}
 		fmt.Fprintf(&b, " (change (mk%s) (mpkg %s) (ppkg %s) (mimports %s) (pimports %s) (minus %s) (plus %s) (mdots %s) (pdots %s))",
 			mk.String(), mpkg, ppkg, mimps[1:len(mimps)-1], pimps[1:len(pimps)-1], mnode, pnode, mtab[1:len(mtab)-1], ptab[1:len(ptab)-1])
@@ -355,11 +390,28 @@ func runEngineCase(c engineCase) (res engineResult) {
 	}
 	tr := patch.VerifRun(fs2, []*patch.VerifProgram{vp2}, c.File.Name, c.File.Src, false)
 	res.Steps = convSteps(tr.Steps)
+	res.HookOut, res.HookErr = tr.Processed, tr.FormatErr+tr.ProcErr
+	// the public API on the same input
+	var apiOut []byte
+	if pf, err := patch.Parse(c.Patch.Name, c.Patch.Src); err != nil {
+		res.APIErr = "parse: " + err.Error()
+	} else if out, err := pf.Apply(c.File.Name, append([]byte(nil), c.File.Src...)); err != nil {
+		res.APIErr = err.Error()
+	} else {
+		apiOut = out
+	}
+	anyOK := false
+	for _, st := range tr.Steps {
+		anyOK = anyOK || (st.Matched && st.ReplaceErr == "")
+	}
 	res.HasOut = tr.Out != nil
-	res.OutErr = tr.FormatErr + tr.ProcErr
-	res.Out = tr.Processed
-	if tr.Processed != nil {
-		t2, i2, err := fileSx(in, c.File.Name, tr.Processed)
+	if res.APIErr != "" {
+		res.OutErr = res.APIErr
+	} else if anyOK || !bytes.Equal(apiOut, c.File.Src) {
+		res.Out = apiOut
+	}
+	if res.Out != nil {
+		t2, i2, err := fileSx(in, c.File.Name, res.Out)
 		if err != nil {
 			res.OutErr = "reparse: " + err.Error()
 		} else {
